@@ -18,7 +18,7 @@ func init() {
 		Explanation: "R1 every UDPConn.WriteTo in core/server is in the session's Feed and, per source of its address operand, is reachable only over the OverrideAddr!=\"\" edge (address = the override) or over the nil-verdict edge of checkAddr applied to that same address value; " +
 			"R2 every update of the per-session decision cache stores, under the looked-up key, the verdict CheckUDP returned for that same key, the hit path returns the cached value, every miss performs the CheckUDP call (no len(cache) shortcut), and the allowed-seed is written only after a successful initConn on the same message and only when no override is active; the dial closure dials the address it reports; " +
 			"R3 OverrideAddr/OriginalAddr are written only in initConn on the address-changed edge and replies substitute OriginalAddr when set; " +
-			"R4 for every PluggableOutbound implementation, CheckUDP walks the same pre-delegation pipeline as UDP (same helper calls with the same constant arguments, delegation to the same next stage), leaves that always refuse UDP refuse CheckUDP, and the string adapter parses addresses through the same helpers in UDP, CheckUDP and WriteTo.",
+			"R4 for every PluggableOutbound implementation, CheckUDP walks the same pre-delegation pipeline as UDP (same helper calls with the same constant arguments, delegation to the same next stage), leaves that always refuse UDP refuse CheckUDP, and the string adapter parses addresses through the same helpers in UDP, CheckUDP and WriteTo; R5 the server-side udpIO CheckUDP returns on every path the outbound's CheckUDP verdict for the asked address or a non-nil error.",
 		NotDecided: []string{
 			"that the policy predicate itself is right (C09)",
 			"behaviour of real sockets / the outbound implementations' dialing",
@@ -482,6 +482,65 @@ func checkC08(c *Check) {
 		})
 		}
 		c.Req(good, "C08.R3:reply-uses-original", r3, p.Pos(recvLoop.Pos()), "replies of a hooked session are not reported from the original address")
+	}
+
+	// ---- R5 the server glue hands the policy question to the outbound unchanged
+	// (added after an independent seeded change was missed)
+	{
+		const r5 = "C08.R5 the server's udpIO CheckUDP returns, on every path, the configured outbound's CheckUDP verdict for the very address it was asked about, or a non-nil error: no allow is decided in the glue (e.g. because a request hook claims the address)"
+		nGlue := 0
+		var glue []*ssa.Function
+		if ioT := p.Named(pServer, "udpIO"); ioT != nil {
+			if ioI, ok := ioT.Underlying().(*types.Interface); ok {
+				for _, it := range p.Implementations(ioI) {
+					if m := p.MethodOf(it, "CheckUDP"); m != nil && p.IsRepoFn(m) {
+						glue = append(glue, m)
+					}
+				}
+			}
+		} else {
+			c.Unres("core/server.udpIO")
+		}
+		for _, fn := range glue {
+			if len(fn.Params) != 2 || len(fn.Blocks) == 0 {
+				continue
+			}
+			nGlue++
+			c.Saw(fnName(fn))
+			prm := fn.Params[1]
+			var leafOK func(v ssa.Value, d int) bool
+			leafOK = func(v ssa.Value, d int) bool {
+				if d > 6 {
+					return false
+				}
+				if ph, ok := v.(*ssa.Phi); ok {
+					for _, e := range ph.Edges {
+						if !leafOK(e, d+1) {
+							return false
+						}
+					}
+					return true
+				}
+				if call, ok := resolve(v).(*ssa.Call); ok && invokeIs(call, "CheckUDP") && len(call.Call.Args) == 1 && resolve(call.Call.Args[0]) == ssa.Value(prm) {
+					return true
+				}
+				return c19nonNilErr(v)
+			}
+			nRet := 0
+			allInstrs(fn, func(in ssa.Instruction) {
+				r, ok := in.(*ssa.Return)
+				if !ok || r.Block() == fn.Recover {
+					return
+				}
+				rs := retResults(r)
+				if len(rs) != 1 {
+					return
+				}
+				nRet++
+				c.Req(leafOK(rs[0], 0), fmt.Sprintf("C08.R5:glue-verdict:%s#%d", fnName(fn), nRet), r5, p.InstrPos(r), "this return of the server-side CheckUDP is not the outbound's CheckUDP verdict for the asked address (nor a refusal): a datagram of an established session is forwarded to a destination the outbound policy was never asked about")
+			})
+		}
+		c.Floor("C08.R5:glue-checkudp", nGlue, 1)
 	}
 
 	// ---- R4 CheckUDP walks the same pipeline as UDP
